@@ -233,6 +233,8 @@ def cases(tier):
                 if tier == "quick" and (N, Mm, p) not in ((1, 1, 2), (1, 2, 2), (2, 2, 1), (2, 1, 3), (3, 3, 2), (1, 3, 1), (3, 2, 3)):
                     continue
                 out.append((N, Mm, T, p, ("list", "dict", "none")[(N + Mm + p) % 3], N == 1 and Mm % 2 == 0))
+    # three trajectories with a LIST of parameter conditions whose third entry is empty (that trajectory runs with the model's own values)
+    out.append((3, 1, 2, 2, "list", False))
     return out
 
 
